@@ -391,10 +391,11 @@ def stepRun (cfg : Cfg) (s : St) (t : Tid) : St :=
     | .recvWait u =>
         -- `except CancelledError` in `_blocking_read`: EndOfQueue if the queue was stopped meanwhile, else re-raise.
         -- Late cancel (the helper already holds a message): the caller gets the cancellation, the message is lost.
-        if s.vres.isNone && s.qClosed then ({ s with rcvBusy := false }.emit (.ret u .eoq)).finish t
+        -- (`if self._closed` is tested whether or not the helper already holds a message: that message is lost either way)
+        if s.qClosed then ({ s with vres := none, rcvBusy := false, gone := s.gone ++ s.vres.toList.map (fun n => (n, false)) }.emit (.ret u .eoq)).finish t
         else ({ s with vres := none, rcvBusy := false, gone := s.gone ++ s.vres.toList.map (fun n => (n, false)) }.emit (.ret u .cancelled)).finish t
     | .loginWait u =>
-        if s.vres.isNone && s.qClosed then ({ s with rcvBusy := false }.emit (.ret u .refused)).finish t
+        if s.qClosed then ({ s with vres := none, rcvBusy := false, gone := s.gone ++ s.vres.toList.map (fun n => (n, false)) }.emit (.ret u .refused)).finish t
         else
           -- `login()`: `except CancelledError: await self.close(); raise`
           enterClose cfg ({ s with vres := none, rcvBusy := false, gone := s.gone ++ s.vres.toList.map (fun n => (n, false)) }.setStatus t .ready) t (.userTail u .cancelled)
